@@ -15,6 +15,7 @@ Static rules (DESIGN.md §C01); all are necessary conditions of the identity, no
  hermi-half         contract_wv halves the density and tau rows exactly once; every integrator calls
                     lib.hermi_sum exactly once after the last contract_wv and adds v1 after it; gradient
                     functions halve exactly once before _gga_grad_sum_ / _tau_grad_dot_
+ inplace-product    the in-place product rule (dv *= F; dv_j += v; v *= F): the `+= v` term is added before v is scaled
  level-flag         a level / mode flag handed to a helper that reads the tau row (index 4) of the density only under
                     that flag is derived from the settings level that determines how many rho rows exist; a literal
                     True / False (or the default) in a level-dependent function, or where a sibling call passes the
@@ -499,6 +500,79 @@ def rule_scale(chk):
 
 
 # ----------------------------------------------------------------------------
+PRODUCT_SCAN = ["ciderpress/dft/plans.py", NUMINT, "ciderpress/dft/lcao_nldf_generator.py", "ciderpress/dft/settings.py"]
+
+
+def _aug_target_base(st):
+    """(base name, op) of `x *= f`, `x[:] *= f`, `x[k][:] += y`"""
+    if not isinstance(st, ast.AugAssign):
+        return None
+    b = st.target
+    while isinstance(b, ast.Subscript):
+        b = b.value
+    return (b.id, type(st.op).__name__) if isinstance(b, ast.Name) else None
+
+
+def rule_inplace_product(chk):
+    """The in-place product rule  (v, dv) -> (v*F, dv*F + v*dF)  written as   dv *= F ; dv_j += v ; v *= F :
+    the derivative slot must receive the *unscaled* value, i.e. `dv_j += v` comes before `v *= F`."""
+    n_inst = 0
+    for rel in PRODUCT_SCAN:
+        if not chk.tree.exists(rel):
+            continue
+        mod = chk.tree.py(rel)
+        for fn in ast.walk(mod):
+            if not isinstance(fn, ast.FunctionDef):
+                continue
+            for blk_owner in ast.walk(fn):
+                for field in ("body", "orelse"):
+                    blk = getattr(blk_owner, field, None)
+                    if not (isinstance(blk, list) and blk and isinstance(blk[0], ast.stmt)):
+                        continue
+                    scal = []   # (index, scaled name, factor text)
+                    adds = []   # (index, derivative base, added name, stmt)
+                    for i, st in enumerate(blk):
+                        cands = [(st, None)]
+                        if isinstance(st, ast.For) and isinstance(st.target, ast.Name) and isinstance(st.iter, ast.Name):
+                            cands = [(x, (st.target.id, st.iter.id)) for x in st.body]
+                        for x, loop in cands:
+                            tb = _aug_target_base(x)
+                            if tb is None:
+                                continue
+                            name = tb[0]
+                            if loop and name == loop[0]:
+                                name = loop[1]  # `for d in dtuple: d[:] *= F` scales the members of dtuple
+                            if tb[1] == "Mult" and isinstance(x.value, ast.Name):
+                                scal.append((i, name, x.value.id))
+                            elif tb[1] == "Add":
+                                v = x.value
+                                while isinstance(v, ast.Subscript):
+                                    v = v.value
+                                if isinstance(v, ast.Name):
+                                    adds.append((i, name, v.id, x))
+                    for ia, dname, vname, st in adds:
+                        fv = [(i, f) for i, n, f in scal if n == vname]
+                        fd = [(i, f) for i, n, f in scal if n == dname]
+                        common = {f for _i, f in fv} & {f for _i, f in fd}
+                        if not common:
+                            continue
+                        n_inst += 1
+                        F = sorted(common)[0]
+                        iv = min(i for i, f in fv if f == F)
+                        inst = "%s:%s `%s` before `%s *= %s`" % (rel, pf.qualname(fn), pf.src(st), vname, F)
+                        if ia < iv:
+                            chk.ok("inplace-product", inst)
+                        else:
+                            chk.violation("inplace-product", rel, pf.qualname(fn), pf.src(st), st.lineno,
+                                          "product rule written in place: `%s` and the derivative arrays `%s` are both scaled "
+                                          "by `%s`, and `%s` adds the value into a derivative slot (the d%s/d%s = 1 term); that "
+                                          "term needs the unscaled value, but here `%s` has already been multiplied by `%s`, so "
+                                          "the derivative is wrong by that factor" % (vname, dname, F, pf.src(st), F, F, vname, F),
+                                          instance=inst)
+    chk.count("in-place product rules (value and derivatives scaled by the same factor)", n_inst)
+
+
+# ----------------------------------------------------------------------------
 LEVEL_SCAN = [NUMINT, RKSG, UKSG, "ciderpress/dft/plans.py", "ciderpress/dft/lcao_nldf_generator.py",
               "ciderpress/pyscf/sdmx.py", "ciderpress/dft/xc_evaluator2.py"]
 LEVEL_WORDS = ("MGGA", "GGA", "LDA")
@@ -836,6 +910,7 @@ def _analyse_rules(chk):
     chk.rule("ladder-mirror", "forward and backward family ladders of eval_xc_cider mirror each other")
     chk.rule("scale-pair", "in-place scaling of the ML energy is applied to its derivative too")
     chk.rule("hermi-half", "one 1/2 in contract_wv + one hermi_sum (+ v1 after it); gradients halve once")
+    chk.rule("inplace-product", "in-place product rule: the derivative slot receives the value before the value is scaled")
     chk.rule("level-flag", "a flag that makes a helper read the tau row of rho is derived from the settings level, not a literal")
     chk.rule("energy-nelec", "nelec / excsum from the same density and batch slot of the enclosing batch loop")
     chk.guard(rule_consume)
@@ -844,6 +919,8 @@ def _analyse_rules(chk):
     chk.guard(rule_hermi_half)
     chk.guard(rule_energy_nelec)
     chk.guard(rule_level_flag)
+    chk.guard(rule_inplace_product)
+    chk.floor("inplace-product", 1, "NLDFAuxiliaryPlan.get_function_to_convolve (rho_mult == 'expnt')")
     chk.floor("level-flag", 2, "calls of the rho-tuple helpers that carry the semilocal level")
     chk.floor("potential-consume", 18, "12 functions x 3 potentials")
     chk.floor("ladder-mirror", 10, "2 guards + order + 8 rungs + 8 stores/reads + 2 hand-outs")
@@ -862,6 +939,8 @@ def _analyse_rules(chk):
 
 def analyse(chk):
     _analyse_own(chk)
+    chk.guard(lambda c_: core.include_findings(c_, 'C12', files=['ciderpress/dft/transform_data.py'], rules=['accumulate', 'list-iter'],
+                                               why='eval_xc_cider back-propagates dE/dX through the feature list; a map that overwrites instead of accumulating its derivative drops the other maps contributions to vxc'))
     chk.guard(lambda c_: core.include_findings(c_, 'C04', files=['ciderpress/dft/xc_evaluator'], rules=['accumulate', 'cutoff-pair'],
                                                why='evaluators share the f/df buffers: an overwrite drops earlier terms of the derivative that becomes vmat'))
     chk.guard(lambda c_: core.include_findings(c_, 'C09', files=['ciderpress/dft/plans.py', 'ciderpress/dft/lcao_nldf_generator.py', 'ciderpress/dft/lcao_interpolation.py', 'ciderpress/pyscf/sdmx.py'], rules=['cache-alias'],
@@ -915,6 +994,11 @@ def mutants(tree):
                "                excsum[i] += np.dot(den_a, exc)\n                excsum[i] += np.dot(den_b, exc)\n                wv = weight * vxc\n                yield i, ao, mask, wv\n\n    buffers = None",
                "                excsum[i] += np.dot(den_a, exc)\n                excsum[i] += np.dot(den_a, exc)\n                wv = weight * vxc\n                yield i, ao, mask, wv\n\n    buffers = None",
                expect="energy-nelec"),
+        Mutant("product rule: value scaled before it is added to its rho derivative", "ciderpress/dft/plans.py",
+               "            da_tuple[0][:] += a\n            a[:] *= rho\n", "            a[:] *= rho\n            da_tuple[0][:] += a\n",
+               expect="inplace-product"),
+        Mutant("map overwrites the accumulated feature derivative", "ciderpress/dft/transform_data.py",
+               "dfdx[self.i] -=", "dfdx[self.i] =", expect="via-C12"),
         Mutant("libxc density tuple built at a fixed meta-GGA level", NUMINT,
                'rho, is_mgga=self.settings.sl_settings.level == "MGGA"', "rho, is_mgga=True", expect="level-flag"),
         Mutant("plan builds the density tuple without tau regardless of the level", "ciderpress/dft/plans.py",
